@@ -5,11 +5,14 @@ CONSTANTS
   Paths <- WireOnly
   Muts <- OnlyValid
   PreKinds <- NoKinds
+  DuringKinds <- NoKinds
+  Points <- NoKinds
   W = 2
   S = 2
   BitsOf <- RealBits
   BodyChecked = FALSE
   AllowRestart = TRUE
+  AllowSync = FALSE
   FreshInits <- BothFresh
 VIEW view
 INVARIANTS TypeOK Coherent NoMiss IndexAgrees IndexComplete CacheComplete
